@@ -36,6 +36,8 @@ def semFmt : Sem where
   multiIndex _ _ := 0
   print vs w := some (w.1, w.2 ++ vs)
   setExit _ w := w
+  nullV := 0
+  call _ _ _ _ := none
 
 /-- `print 1 2 (FORMAT = 5)` : a three-operand concatenation whose last operand changes the format -/
 def g011Witness : Stmt :=
